@@ -16,7 +16,7 @@
 EXTENDS Midi, TraceLib, Tables
 
 VARIABLES l,      \* index of the next event
-          dead,   \* a divergence was already reported for this run
+          dead,   \* properties for which a divergence was already reported in this run
           drv,    \* driver class of the current run (decides which property owns a mismatch)
           lastPb  \* <<14-bit value, key>> of the previous pitch-bend observation (monotonicity)
 
@@ -31,42 +31,43 @@ Sign(x) == IF x > 0 THEN 1 ELSE IF x < 0 THEN -1 ELSE 0
 
 PbTags(o) ==
   LET k == o[4] IN
-  IF k = NaNKey THEN {"C18:pb-nan"}
-  ELSE (IF pb' = 0     /\ k # KeyNegOne THEN {"C18:pb-min"}  ELSE {})
-  \cup (IF pb' = 8192  /\ k # 0         THEN {"C18:pb-zero"} ELSE {})
-  \cup (IF pb' = 16383 /\ k # KeyOne    THEN {"C18:pb-max"}  ELSE {})
-  \cup (IF k < KeyNegOne \/ k > KeyOne  THEN {"C18:pb-range"} ELSE {})
-  \cup (IF Sign(pb' - lastPb[1]) # Cmp(k, lastPb[2]) THEN {"C18:pb-monotone"} ELSE {})
+  IF k = NaNKey THEN {<<"C18", "pb-nan">>}
+  ELSE (IF pb' = 0     /\ k # KeyNegOne THEN {<<"C18", "pb-min">>}  ELSE {})
+  \cup (IF pb' = 8192  /\ k # 0         THEN {<<"C18", "pb-zero">>} ELSE {})
+  \cup (IF pb' = 16383 /\ k # KeyOne    THEN {<<"C18", "pb-max">>}  ELSE {})
+  \cup (IF k < KeyNegOne \/ k > KeyOne  THEN {<<"C18", "pb-range">>} ELSE {})
+  \cup (IF Sign(pb' - lastPb[1]) # Cmp(k, lastPb[2]) THEN {<<"C18", "pb-monotone">>} ELSE {})
 
 CcTag(name, k, v) ==
-  IF k = NaNKey THEN {"C18:" \o name}
-  ELSE IF ~Near(k, CcKey(v), 1) \/ (v = 0 /\ k # 0) \/ (v = 127 /\ k # KeyOne) THEN {"C18:" \o name}
+  IF k = NaNKey THEN {<<"C18", name>>}
+  ELSE IF ~Near(k, CcKey(v), 1) \/ (v = 0 /\ k # 0) \/ (v = 127 /\ k # KeyOne) THEN {<<"C18", name>>}
   ELSE {}
 
 ObsTags(o) ==
-       (IF o[1] # gate' THEN {"C04:gate"} ELSE {})
-  \cup (IF o[2] # note' THEN {"C04:note"} ELSE {})
-  \cup (IF o[3] = NaNKey \/ ~Near(o[3], CcKey(vel'), 1) THEN {"C04:velocity"} ELSE {})
+       (IF o[1] # gate' THEN {<<"C04", "gate">>} ELSE {})
+  \cup (IF o[2] # note' THEN {<<"C04", "note">>} ELSE {})
+  \cup (IF o[3] = NaNKey \/ ~Near(o[3], CcKey(vel'), 1) THEN {<<"C04", "velocity">>} ELSE {})
   \cup PbTags(o)
   \cup CcTag("mod", o[5], cc'.mod) \cup CcTag("volume", o[6], cc'.vol)
   \cup CcTag("cutoff", o[7], cc'.cut) \cup CcTag("resonance", o[8], cc'.res)
   \cup CcTag("portamento-time", o[9], cc'.pt)
-  \cup (IF o[10] # porta' THEN {"C18:portamento-switch"} ELSE {})
-  \cup (IF o[11] # sust'  THEN {"C18:sustain-switch"} ELSE {})
+  \cup (IF o[10] # porta' THEN {<<"C18", "portamento-switch">>} ELSE {})
+  \cup (IF o[11] # sust'  THEN {<<"C18", "sustain-switch">>} ELSE {})
 
 \* framing traces: every deviation from decode-and-apply is also a C06 deviation
-Own(tags) == IF drv' = "framing" /\ tags # {} THEN tags \cup {"C06:outputs"} ELSE tags
+Own(tags) == IF drv' = "framing" /\ tags # {} THEN tags \cup {<<"C06", "outputs">>} ELSE tags
 
 Advance(tags) ==
   /\ l' = l + 1
-  /\ dead' = (dead \/ tags # {} \/ over')      \* beyond 32 outstanding notes: outside C04's premise
-  /\ Flag(l, IF dead \/ over' THEN {} ELSE tags)
+  \* beyond 32 outstanding notes: outside C04's premise, nothing more is reported in this run
+  /\ dead' = IF over' THEN {"ALL"} ELSE dead \cup PropsOf(tags)
+  /\ Flag(l, IF over' THEN {} ELSE LiveTags(tags, dead))
 
 ---------------------------------------------------------------------------
 TNew ==
   /\ e.op = "new"
   /\ New(e.c)
-  /\ l' = l + 1 /\ dead' = FALSE /\ drv' = e.drv /\ lastPb' = <<8192, 0>>
+  /\ l' = l + 1 /\ dead' = {} /\ drv' = e.drv /\ lastPb' = <<8192, 0>>
 
 TByte ==
   /\ e.op = "b"
@@ -79,13 +80,13 @@ TPollR ==
   /\ e.op = "pr"
   /\ PollRising
   /\ UNCHANGED <<drv, lastPb>>
-  /\ Advance(Own(IF e.r # rise THEN {"C05:rising"} ELSE {}))
+  /\ Advance(Own(IF e.r # rise THEN {<<"C05", "rising">>} ELSE {}))
 
 TPollF ==
   /\ e.op = "pf"
   /\ PollFalling
   /\ UNCHANGED <<drv, lastPb>>
-  /\ Advance(Own(IF e.r # fall THEN {"C05:falling"} ELSE {}))
+  /\ Advance(Own(IF e.r # fall THEN {<<"C05", "falling">>} ELSE {}))
 
 TRetrig == /\ e.op = "rt"  /\ SetRetrig(e.m) /\ UNCHANGED <<drv, lastPb>> /\ Advance({})
 TPrio   == /\ e.op = "pri" /\ SetPrio(e.p)   /\ UNCHANGED <<drv, lastPb>> /\ Advance({})
@@ -93,14 +94,14 @@ TPrio   == /\ e.op = "pri" /\ SetPrio(e.p)   /\ UNCHANGED <<drv, lastPb>> /\ Adv
 TPanic ==
   /\ e.op = "panic"
   /\ UNCHANGED <<vars, drv, lastPb>>
-  /\ Advance({"C17:panic", "C06:panic"})
+  /\ Advance({<<"C17", "panic">>, <<"C06", "panic">>})
 
 \* first line of a violation replay file: who produced it (ignored)
 TMeta == e.op = "meta" /\ UNCHANGED <<vars, dead, drv, lastPb>> /\ l' = l + 1
 
 TNext == l <= NRec /\ (TMeta \/ TNew \/ TByte \/ TPollR \/ TPollF \/ TRetrig \/ TPrio \/ TPanic)
 
-TInit == InitFor(0) /\ l = 1 /\ dead = FALSE /\ drv = "none" /\ lastPb = <<8192, 0>> /\ FlagInit
+TInit == InitFor(0) /\ l = 1 /\ dead = {} /\ drv = "none" /\ lastPb = <<8192, 0>> /\ FlagInit
 
 TSpec == TInit /\ [][TNext]_tvars
 
